@@ -4,16 +4,19 @@
    Vocabulary.  [erase : node -> pv] (Model/SymCoreSpec.v) forgets ids, parent / path annotations and flags; [evals its] /
    [eitems its] are the erased item values / (key, value) pairs of a container (Proofs/SymCoreC02Read.v).  The SPECIFICATION
    is Model/PyList.v / PyDict.v at element type pv with Python == [pv_pyeq] ([py_lstep], [py_dstep]); it is validated
-   against CPython's built-in list / dict on every run of the check.  [root_is st r tid k fl its]: root r of the forest is
-   the container (tid, k, fl) with items its; [clean its]: no item is the MISSING_VALUE marker; [permits sc fl]: the target
-   is not (treated as) sealed and writable through accessors (the permission side is C08's).  A plain argument is a
-   None / bool / int / str leaf or a literal list / dict of such values ([vplain], its value [pval]).
+   against CPython's built-in list / dict on every run of the check.  [at_is st ps tid k pa fl its]: the container (tid, k, fl)
+   with items its sits at position ps = (root, keys) of the forest -- a root or anywhere below one; [clean its]: no item is the
+   MISSING_VALUE marker; [anc_clean st ps]: no list above the target holds the marker (true of every forest built from
+   literals and driven by plain calls; the marker only gets into a list through the extensions under notify_on_change(False));
+   [wfs]: C01's invariant; [permits sc fl]: the target is not (treated as) sealed and writable through accessors (the
+   permission side is C08's).  A plain argument is a None / bool / int / str leaf or a literal list / dict of such values
+   ([vplain], its value [pval]).
 
-   The _partial theorems are the full refinement statement for the setting of the property text -- ONE container (a root of
-   the forest) driven by a sequence of calls with plain Python arguments.  What they do not cover, and the correspondence
-   (model vs pg.List / pg.Dict on generated histories, every step) alone covers: targets nested below a root, arguments that
-   are existing symbolic nodes (adopted or copied), opaque objects as written values, l * n and l *= n on lists that hold
-   containers (needs uniqueness of node ids, Proofs/SymCoreIds.v), rebind with several / multi-key paths, d | m and m | d. *)
+   The _partial theorems are the full refinement statement for a container ANYWHERE in a well-formed forest driven by calls
+   with plain Python arguments.  What they leave to the correspondence (model vs pg.List / pg.Dict on generated histories,
+   every step): arguments that are existing symbolic nodes (adopted or copied at write time -- Python would alias), opaque
+   objects as written values, l * n and l *= n on lists that hold containers, rebind with several / multi-key paths, d | m
+   and m | d. *)
 From Coq Require Import ZArith NArith List Bool.
 From PG Require Import Common.Tactics Model.SymCoreDefs Model.SymCoreOps Model.SymCoreSpec Model.SymCoreC02
      Proofs.SymCoreWF Proofs.SymCoreC02Base Proofs.SymCoreC02Read Proofs.SymCoreC02Frame Proofs.SymCoreC02Prim
@@ -38,65 +41,67 @@ Print Assumptions C02_spec_slice_positions_in_bounds.
 (* --- C02_refines_python: one step ------------------------------------------------------------------------------------------- *)
 (* every list operation of the base catalogue: contents after = the Python call on the erased contents before; same ok /
    error class (IndexError, KeyError, TypeError, ValueError); the value of the call agrees ([ret_agrees]: nothing, the removed
-   item by identity, or a new root list with the erased items Python returns) *)
-Theorem C02_refines_python_list_partial : forall q r tid fl, no_quirks q -> forall st its sc o lo,
-  wfs st -> root_is st r tid KList fl its -> clean its -> permits sc fl ->
+   item by identity, or a new root list with the erased items Python returns); the invariants hold again afterwards *)
+Theorem C02_refines_python_list_partial : forall q ps tid pa fl, no_quirks q -> forall st its sc o lo,
+  wfs st -> at_is st ps tid KList pa fl its -> clean its -> anc_clean st ps -> permits sc fl ->
   vplain_lop (evals its) o = true -> vlop_of o = Some lo ->
   exists its',
-    root_is (fst (step q st (mkSop sc (r, []) o))) r tid KList fl its' /\ clean its' /\
+    at_is (fst (step q st (mkSop sc ps o))) ps tid KList pa fl its' /\ clean its' /\ anc_clean (fst (step q st (mkSop sc ps o))) ps /\
     evals its' = PyList.lstate pv_pyeq (evals its) lo /\
-    out_class (snd (step q st (mkSop sc (r, []) o))) (py_lstep (evals its) lo) /\
-    exists ro st1, resolve_op st o = Some ro /\ exec q sc st (r, []) tid KList [] fl its ro = (st1, snd (step q st (mkSop sc (r, []) o))) /\
-                   match py_lstep (evals its) lo with inl (_, ret) => ret_agrees st1 (snd (step q st (mkSop sc (r, []) o))) ret | inr _ => True end.
+    out_class (snd (step q st (mkSop sc ps o))) (py_lstep (evals its) lo) /\
+    exists ro st1, resolve_op st o = Some ro /\ exec q sc st ps tid KList (snd ps) fl its ro = (st1, snd (step q st (mkSop sc ps o))) /\
+                   match py_lstep (evals its) lo with inl (_, ret) => ret_agrees st1 (snd (step q st (mkSop sc ps o))) ret | inr _ => True end.
 Proof. exact step_list_refines. Qed.
 Print Assumptions C02_refines_python_list_partial.
 
 (* every dict operation of the base catalogue (item assignment / deletion, pop, popitem, clear, setdefault, update, |=, copy) *)
-Theorem C02_refines_python_dict_partial : forall q r tid fl, no_quirks q -> forall st its sc o d,
-  wfs st -> root_is st r tid KDict fl its -> clean its -> permits sc fl ->
+Theorem C02_refines_python_dict_partial : forall q ps tid pa fl, no_quirks q -> forall st its sc o d,
+  wfs st -> at_is st ps tid KDict pa fl its -> clean its -> anc_clean st ps -> permits sc fl ->
   vplain_dop o = true -> vdop_of o = Some d ->
   exists its',
-    root_is (fst (step q st (mkSop sc (r, []) o))) r tid KDict fl its' /\ clean its' /\
+    at_is (fst (step q st (mkSop sc ps o))) ps tid KDict pa fl its' /\ clean its' /\ anc_clean (fst (step q st (mkSop sc ps o))) ps /\
     eitems its' = PyDict.dstate key_eqb pv_pyeq (eitems its) d /\
-    out_class (snd (step q st (mkSop sc (r, []) o))) (py_dstep (eitems its) d) /\
-    exists ro st1, resolve_op st o = Some ro /\ exec q sc st (r, []) tid KDict [] fl its ro = (st1, snd (step q st (mkSop sc (r, []) o))) /\
-                   match py_dstep (eitems its) d with inl (_, ret) => dret_agrees st1 (snd (step q st (mkSop sc (r, []) o))) ret | inr _ => True end.
+    out_class (snd (step q st (mkSop sc ps o))) (py_dstep (eitems its) d) /\
+    exists ro st1, resolve_op st o = Some ro /\ exec q sc st ps tid KDict (snd ps) fl its ro = (st1, snd (step q st (mkSop sc ps o))) /\
+                   match py_dstep (eitems its) d with inl (_, ret) => dret_agrees st1 (snd (step q st (mkSop sc ps o))) ret | inr _ => True end.
 Proof. exact step_dict_refines. Qed.
 Print Assumptions C02_refines_python_dict_partial.
 
-(* slice assignment l[a:b:c] = vs and slice deletion del l[a:b:c], any start / stop / step (also None, negative, out of range, 0) *)
-Theorem C02_refines_python_slices_partial : forall q r tid fl st its sc x lo,
-  wfs st -> root_is st r tid KList fl its -> clean its -> permits sc fl ->
+(* slice assignment l[a:b:c] = vs and slice deletion del l[a:b:c], any start / stop / step (also None, negative, out of range, 0);
+   the forest is well-formed again afterwards (C01's invariant for the operations the base catalogue lacked) *)
+Theorem C02_refines_python_slices_partial : forall q ps tid pa fl st its sc x lo,
+  wfs st -> at_is st ps tid KList pa fl its -> clean its -> anc_clean st ps -> permits sc fl ->
   vplain_xop x = true -> vxlop_of x = Some lo ->
-  wfs (fst (step2 q st (Ext sc (r, []) x))) /\
+  wfs (fst (step2 q st (Ext sc ps x))) /\
   exists its',
-    root_is (fst (step2 q st (Ext sc (r, []) x))) r tid KList fl its' /\ clean its' /\
+    at_is (fst (step2 q st (Ext sc ps x))) ps tid KList pa fl its' /\ clean its' /\ anc_clean (fst (step2 q st (Ext sc ps x))) ps /\
     evals its' = PyList.lstate pv_pyeq (evals its) lo /\
-    out_class (snd (step2 q st (Ext sc (r, []) x))) (py_lstep (evals its) lo).
+    out_class (snd (step2 q st (Ext sc ps x))) (py_lstep (evals its) lo).
 Proof. exact step_x_list_refines. Qed.
 Print Assumptions C02_refines_python_slices_partial.
 
 (* --- C02_history: every finite history on one container ---------------------------------------------------------------------- *)
 (* lists: base catalogue and slice operations interleaved in any order; [lhist2_ok] only says that every call has plain
    arguments and is let through; [lhist2_py] is the plain list driven by the same calls *)
-Theorem C02_history_list_partial : forall q r tid fl, no_quirks q -> forall h st its,
-  wfs st -> root_is st r tid KList fl its -> clean its -> lhist2_ok fl (evals its) h ->
-  option_map erase (get_root (run_ops2 q st (on_root2 r h)) r) = Some (plist (lhist2_py (evals its) h)) /\
-  wfs (run_ops2 q st (on_root2 r h)).
-Proof. exact c02_history_list_partial_proof. Qed.
+Theorem C02_history_list_partial : forall q ps tid pa fl, no_quirks q -> forall h st its,
+  wfs st -> at_is st ps tid KList pa fl its -> clean its -> anc_clean st ps -> lhist2_ok fl (evals its) h ->
+  option_map erase (get_at (run_ops2 q st (on_pos2 ps h)) ps) = Some (plist (lhist2_py (evals its) h)) /\
+  wfs (run_ops2 q st (on_pos2 ps h)).
+Proof. exact c02_history_list_proof. Qed.
 Print Assumptions C02_history_list_partial.
 
-Theorem C02_history_dict_partial : forall q r tid fl, no_quirks q -> forall h st its,
-  wfs st -> root_is st r tid KDict fl its -> clean its -> dhist_ok fl (eitems its) h ->
-  option_map erase (get_root (run_ops q st (on_root r h)) r) = Some (PNode KDict (dhist_py (eitems its) h)).
-Proof. exact c02_history_dict_partial_proof. Qed.
+Theorem C02_history_dict_partial : forall q ps tid pa fl, no_quirks q -> forall h st its,
+  wfs st -> at_is st ps tid KDict pa fl its -> clean its -> anc_clean st ps -> dhist_ok fl (eitems its) h ->
+  option_map erase (get_at (run_ops q st (on_pos ps h)) ps) = Some (PNode KDict (dhist_py (eitems its) h)) /\
+  wfs (run_ops q st (on_pos ps h)).
+Proof. exact c02_history_dict_proof. Qed.
 Print Assumptions C02_history_dict_partial.
 
 (* "for all initial contents": any constructed (unsealed) pg.List / pg.Dict, whatever its literal, under any such history *)
 Theorem C02_history_of_constructed_list_partial : forall q, no_quirks q -> forall fl lits h,
   f_sealed fl = false -> lit_valid (LitNode KList fl false lits) = true ->
   lhist2_ok fl (pvals (plit (LitNode KList fl false lits))) h ->
-  option_map erase (get_root (run_ops2 q (init_forest [LitNode KList fl false lits] empty_state) (on_root2 0 h)) 0) =
+  option_map erase (get_at (run_ops2 q (init_forest [LitNode KList fl false lits] empty_state) (on_pos2 (0%nat, []) h)) (0%nat, [])) =
   Some (plist (lhist2_py (pvals (plit (LitNode KList fl false lits))) h)).
 Proof. exact history_of_constructed_list. Qed.
 Print Assumptions C02_history_of_constructed_list_partial.
@@ -104,42 +109,48 @@ Print Assumptions C02_history_of_constructed_list_partial.
 Theorem C02_history_of_constructed_dict_partial : forall q, no_quirks q -> forall fl lits h,
   f_sealed fl = false -> lit_valid (LitNode KDict fl false lits) = true ->
   dhist_ok fl (pitems (plit (LitNode KDict fl false lits))) h ->
-  option_map erase (get_root (run_ops q (init_forest [LitNode KDict fl false lits] empty_state) (on_root 0 h)) 0) =
+  option_map erase (get_at (run_ops q (init_forest [LitNode KDict fl false lits] empty_state) (on_pos (0%nat, []) h)) (0%nat, [])) =
   Some (PNode KDict (dhist_py (pitems (plit (LitNode KDict fl false lits))) h)).
 Proof. exact history_of_constructed_dict. Qed.
 Print Assumptions C02_history_of_constructed_dict_partial.
 
-(* the hypotheses are satisfiable: a constructed forest, a nine-call list history and a five-call dict history *)
+(* the hypotheses are satisfiable: a constructed forest; a nine-call history on a root list, a five-call history on a root
+   dict, a three-call history on a dict stored inside the list *)
 Theorem C02_history_hypotheses_example :
   wfs ex_state /\
-  (root_is ex_state 0 1%N KList default_flags ex_list_items /\ clean ex_list_items /\ lhist2_ok default_flags (evals ex_list_items) ex_list_history) /\
-  (root_is ex_state 1 3%N KDict default_flags ex_dict_items /\ clean ex_dict_items /\ dhist_ok default_flags (eitems ex_dict_items) ex_dict_history).
+  (at_is ex_state (0%nat, []) 1%N KList None default_flags ex_list_items /\ clean ex_list_items /\ anc_clean ex_state (0%nat, []) /\
+   lhist2_ok default_flags (evals ex_list_items) ex_list_history) /\
+  (at_is ex_state (1%nat, []) 3%N KDict None default_flags ex_dict_items /\ clean ex_dict_items /\ anc_clean ex_state (1%nat, []) /\
+   dhist_ok default_flags (eitems ex_dict_items) ex_dict_history) /\
+  (at_is ex_state ex_nested_pos 2%N KDict (Some 1%N) default_flags ex_nested_items /\ clean ex_nested_items /\
+   anc_clean ex_state ex_nested_pos /\ dhist_ok default_flags (eitems ex_nested_items) ex_nested_history).
 Proof. exact c02_history_hypotheses_example_proof. Qed.
 Print Assumptions C02_history_hypotheses_example.
 
 (* --- C02_extensions: the four documented departures, each as an equation ----------------------------------------------------------- *)
-Theorem C02_extension_missing_deletes_key : forall q sc r tid fl st its a k st' out,
-  root_is st r tid KDict fl its -> clean its -> permits sc fl ->
-  exec q sc st (r, []) tid KDict [] fl its (DSet a k (RLeaf LMissing)) = (st', out) ->
-  out = Ok RNone /\ dwrote st r tid fl st' (PyDict.ddel key_eqb k (eitems its)).
+Theorem C02_extension_missing_deletes_key : forall q sc ps tid pa fl st its a k st' out,
+  wfs st -> at_is st ps tid KDict pa fl its -> clean its -> anc_clean st ps -> permits sc fl ->
+  exec q sc st ps tid KDict (snd ps) fl its (DSet a k (RLeaf LMissing)) = (st', out) ->
+  out = Ok RNone /\ dwrote st ps tid pa fl st' (PyDict.ddel key_eqb k (eitems its)).
 Proof. exact ext_missing_deletes. Qed.
 Print Assumptions C02_extension_missing_deletes_key.
 
-Theorem C02_extension_rebind_past_end_appends : forall q sc r tid fl st its z rv st' p c,
-  root_is st r tid KList fl its -> clean its -> treats_as_sealed sc fl = false -> storable_rv rv -> zlen its <= z ->
-  rebind_one q sc st (r, []) [KI z] rv = (st', p, c) ->
-  p = PUpd /\ wrote st r tid fl st' (evals its ++ [prv rv]).
+Theorem C02_extension_rebind_past_end_appends : forall q sc ps tid pa fl st its z rv st' p c,
+  wfs st -> at_is st ps tid KList pa fl its -> clean its -> anc_clean st ps -> treats_as_sealed sc fl = false ->
+  storable_rv rv -> zlen its <= z ->
+  rebind_one q sc st ps [KI z] rv = (st', p, c) ->
+  p = PUpd /\ wrote st ps tid pa fl st' (evals its ++ [prv rv]).
 Proof. exact ext_rebind_past_end_appends. Qed.
 Print Assumptions C02_extension_rebind_past_end_appends.
 
-Theorem C02_extension_insertion_inserts : forall q sc r tid fl st its z rv st' p c,
-  root_is st r tid KList fl its -> clean its -> treats_as_sealed sc fl = false -> storable_rv rv ->
-  rebind_one q sc st (r, []) [KI z] (RIns rv) = (st', p, c) ->
-  p = PUpd /\ wrote st r tid fl st' (PyList.insert (evals its) z (prv rv)).
+Theorem C02_extension_insertion_inserts : forall q sc ps tid pa fl st its z rv st' p c,
+  wfs st -> at_is st ps tid KList pa fl its -> clean its -> anc_clean st ps -> treats_as_sealed sc fl = false -> storable_rv rv ->
+  rebind_one q sc st ps [KI z] (RIns rv) = (st', p, c) ->
+  p = PUpd /\ wrote st ps tid pa fl st' (PyList.insert (evals its) z (prv rv)).
 Proof. exact ext_insertion_inserts. Qed.
 Print Assumptions C02_extension_insertion_inserts.
 
-Theorem C02_extension_plain_becomes_symbolic : forall q sc r st ck cid cfl tp ins k f lits nw st1,
+Theorem C02_extension_plain_becomes_symbolic : forall q sc st r ck cid cfl tp ins k f lits nw st1,
   formalize q sc st r ck cid cfl tp ins (RLit (LitNode k f true lits)) = (nw, st1) ->
   erase nw = plit (LitNode k f true lits) /\ exists i f' its', nw = Node i k (Some cid) tp f' its'.
 Proof. exact ext_plain_becomes_symbolic. Qed.
